@@ -6,6 +6,7 @@ near-miss passwords the documented-equivalence model of vlib/equiv.py (everythin
 False), (3) clean refusal (ValueError/TypeError family) of inputs outside a format's documented domain."""
 import re
 
+from passlib.utils.handlers import GenericHandler as _GenericHandler
 from vlib import hashers as H
 from vlib.equiv import equivalent, canon
 from vlib.run import main
@@ -148,8 +149,18 @@ def work(run, names):
                         ctx["user"], ctx["realm"] = "üser", "réalm"
                 secret = pw.encode("utf-8") if isinstance(pw, str) else pw
                 adm = admissible(bname, secret, ctx)
+                # one case in five goes through the older spelling hash(secret, **settings, **context) (deprecated but supported;
+                # hashers without settings get relaxed=True, which every hasher accepts)
+                legacy_call = (not default_cost and isinstance(h, type) and issubclass(h, _GenericHandler) and (si + len(label)) % 5 == 0
+                               and bname not in H.DISABLED and not (set(st) & set(getattr(h, "context_kwds", ()))))
                 try:
-                    hs = hh.hash(pw, **ctx)
+                    if legacy_call:
+                        hs = h.hash(pw, **(st or {"relaxed": True}), **ctx)
+                        run.count("legacy_hash_calls")
+                        if ctx:
+                            run.count("legacy_hash_calls_with_context_kwds")
+                    else:
+                        hs = hh.hash(pw, **ctx)
                 except (ValueError, TypeError) as e:
                     if adm:
                         run.violation(f"C01|{name}|hash-refuses-admissible|{type(e).__name__}|{label.split('+')[0].split('-')[0]}",
@@ -329,6 +340,8 @@ def body(run):
     for n in H.libpass_hashers():
         run.require(f"triple:libpass.{n}", 3)
     run.require("near_miss_verifies", 1000)
+    run.require("legacy_hash_calls", 50)
+    run.require("legacy_hash_calls_with_context_kwds", 5)
     run.require("equivalent_confirmed", 20)
     if run.tier == "thorough":
         # the repository's own test-suite as one more workload, monitors on (vlib/ambient_plugin.py)
